@@ -121,7 +121,16 @@ def run_case(rng, tier, case):
     case.key = env.spec_key([spec, size]); case.sample = dict(gen.abbreviate(spec), interval_size=size, coupling=cls); case.spec = {'spec': spec, 'interval_size': size, 'class': cls}
     mip = gen.is_mip(spec)
     tolv = solve.TOL_VAL_MIP if mip else solve.TOL_VAL
-    ru = flow.run_portfolio(spec)
+    skip = None
+    if rng.random() < 0.12:
+        # an external system that is not balanced inside the portfolio (documented argument skip_nodes of both set-ups): an import link from 'ext'
+        f_ = gen.UNIT_F[spec['grid']['unit']]
+        tgt = sorted({n for a in spec['assets'] if a['type'] != 'StructuredAsset' for n in (a.get('nodes') or [])})[0]
+        spec['assets'].insert(int(gen.pick(rng, [0, len(spec['assets'])])), {'type': 'Transport', 'name': 'ext_import', 'nodes': ['ext', tgt], 'min_cap': 0., 'max_cap': 3. * f_,
+                              'efficiency': 0.9, 'costs_time_series': sorted(spec['prices'])[0], 'costs_const': 0.5, 'wacc': 0.})
+        skip = ['ext']; case.feature('skip_nodes')
+        case.key = env.spec_key([spec, size, 'skip']); case.spec['spec'] = spec
+    ru = flow.run_portfolio(spec, skip_nodes=skip)
     if not ru.ok:
         case.reject('unsplit: ' + flow.describe_error(ru)); return
     built_s = None
@@ -141,7 +150,7 @@ def run_case(rng, tier, case):
                     case.feature('earlier_horizon_first')
         except Exception:
             built_s = None        # (the earlier horizon is only history; if it cannot be set up the split runs on fresh objects)
-    rs = flow.run_portfolio(spec, split=size, built=built_s)
+    rs = flow.run_portfolio(spec, split=size, built=built_s, skip_nodes=skip)
     if not rs.ok:
         if rs.stage in ('optimize', 'extract'):
             case.check('split.optimize_and_extract_work', False, interval=size, stage=rs.stage, error=flow.describe_error(rs)); return
@@ -186,11 +195,28 @@ def run_case(rng, tier, case):
                 case.check('split.second_optimize_same_result', False, first=v_split, second=str(res2))
         except Exception as e:
             case.check('split.second_optimize_same_result', False, error='%s: %s' % (type(e).__name__, str(e)[:160]))
+    if ru.ok and getattr(ru.op, 'map_nodal_restr', None) is not None and getattr(rs.op, 'map_nodal_restr', None) is not None:
+        # the same (node, step) balances with and without the split
+        nu_ = set((int(t_), str(n_)) for t_, n_ in ru.op.map_nodal_restr); ns_ = set((int(t_), str(n_)) for t_, n_ in rs.op.map_nodal_restr)
+        case.check('split.nodal_restrictions_match_unsplit', nu_ == ns_, nonvacuous=n_int >= 2, only_unsplit=sorted(nu_ - ns_)[:4], only_split=sorted(ns_ - nu_)[:4], skip_nodes=skip)
+    if mip and len(evs) == n_int and rng.random() < 0.5:
+        # the documented relaxed run (make_soft_problem) of the split problem: every interval is solved relaxed - the value is the sum of the
+        # intervals' relaxed optima (independent LP solver on the interval problems as set up)
+        try:
+            with env.quiet(), attach.paused():
+                res_soft = rs.op.optimize(make_soft_problem=True)
+            refs = [solve.solve_op(e_.snap, relax=True, time_limit=30.) for e_ in evs]
+            if not isinstance(res_soft, str) and all(q_['status'] == 'optimal' for q_ in refs):
+                want_ = float(sum(q_['value'] for q_ in refs))
+                case.check('split.relaxed_value_is_sum_of_relaxed_intervals', abs(float(res_soft.value) - want_) <= solve.TOL_VAL * (1 + abs(want_)), nonvacuous=abs(want_ - v_split) > 1e-6 * (1 + abs(v_split)),
+                           relaxed_split=float(res_soft.value), sum_of_relaxed_interval_optima=want_, exact_split=v_split)
+        except Exception as e:
+            case.check('split.relaxed_run_works', False, error='%s: %s' % (type(e).__name__, str(e)[:160]))
     ms = rs.op.mapping
     case.check('split.steps_on_original_grid', len(ms) == 0 or (int(ms['time_step'].min()) >= 0 and int(ms['time_step'].max()) < T), T=T)
     xs = np.asarray(rs.res.x, float)
     flowed = bool(np.abs(xs).max() > 1e-6) if len(xs) else False
-    if mon_balance_output(case, rs.built.portfolio, rs.out, clause='split.balance_on_original_grid') is False and rs.out.get('dispatch') is None:
+    if mon_balance_output(case, rs.built.portfolio, rs.out, clause='split.balance_on_original_grid', skip_nodes=skip) is False and rs.out.get('dispatch') is None:
         pass
     transferable = cls in ('uncoupled', 'storage')
     if ru.ok and not transferable:
